@@ -413,37 +413,10 @@ theorem bind_forward_shape {s : ArgSpec} {env : Env} (wf : WF s) (h : EnvShape s
     cases hv : s.varkw <;> simp [hvk, hv]
   simp [c1, c2]
 
-/-- nothing called `func` among the forwarded keywords -/
-theorem no_callerClash {s : ArgSpec} {ca : CallArgs} {env : Env} (h : bind s ca = .ok env)
-    (hn : NoCallerNameClash s ca) : callerClash (forward s env) = false := by
-  rcases hn with hpo | hn
-  · simp [callerClash, hpo]
-  have hkw : env.kw = leftover s ca.kw := by
-    unfold Model.Wrappers.bind at h
-    simp only at h
-    split at h
-    · cases h
-    · split at h
-      · cases h
-      · split at h
-        · cases h
-        · split at h
-          · cases h
-          · cases h; rfl
-  have : lookup (forward s env).kw callerFuncParam = none := by
-    apply lookup_none_of_not_key
-    intro kv hkv e
-    rw [forward_eq] at hkv
-    simp only [List.mem_append, List.mem_map] at hkv
-    rcases hkv with ⟨k, hk, rfl⟩ | hkv
-    · exact hn.1 (e ▸ hk)
-    · cases hv : s.varkw with
-      | none => simp [hv] at hkv
-      | some _ =>
-        simp only [hv, Option.isSome_some, if_true] at hkv
-        rw [hkw] at hkv
-        exact hn.2 kv hkv e
-  simp [callerClash, hasKey, this]
+/-- the library's `wrapped(func, /, *args, **kwargs)` takes its first parameter positional-only (flag read from
+context_managers.py), so no forwarded keyword — not even one called `func` — can collide with it -/
+theorem callerClash_false (fa : CallArgs) : callerClash fa = false := by
+  simp [callerClash, callerFuncPosOnly]
 
 /-- the wrapper's own binding differs from the original's only through keywords naming positional-only
 parameters -/
